@@ -4,8 +4,9 @@
    P : problem  = the four basic functions f, ∇f, g, ∇g·y, the box D and the optional combined members;
    provider_ok  = each SUPPLIED optional member returns its closed form (the provider's obligation);
    grad_g_prod_empty_ok = ∇g(x)·[] is the zero n-vector (what eval_grad_g_prod writes when m = 0). *)
-From Coq Require Import Reals List ZArith Lra Bool.
-From Alpaqa Require Import Num NumR Vec Prox ProxProofs AugLag AugLagProofs.
+From Coq Require Import Reals List ZArith Lra Lia Bool.
+From Coq Require String.
+From Alpaqa Require Import Num NumR Vec Prox ProxProofs AugLag AugLagProofs Vtable VtableGen VtableProofs.
 Import ListNotations.
 Local Open Scope R_scope.
 
@@ -167,6 +168,99 @@ Theorem C04_counters_hess_psi_prod_refuted :
 Proof. exact counters_hess_psi_prod_opt_out_lost. Qed.
 Print Assumptions C04_counters_hess_psi_prod_refuted.
 
+(* ---- (8) tie to the sources: coq/gen/VtableGen.v is regenerated from type-erased-problem.hpp/.tpp on every run
+        (translate/gen_C04_vtable.py). gcalc / gvt_X are Gallina terms built from the PARSED statement sequence of
+        calc_ŷ_dᵀŷ and of the default_X bodies. They compute the same values and call the same user members (multiset)
+        as the hand-written compositions above, so every theorem of (1)-(3) holds for what the sources say. ---- *)
+Theorem C04_generated_calc_is_model : forall P g y Σ, m_equiv (gcalc P g y Σ) (calc_yhat P g y Σ).
+Proof. exact gcalc_equiv. Qed.
+Print Assumptions C04_generated_calc_is_model.
+
+Theorem C04_generated_combined_defaults_are_model : forall P prov x y Σ,
+  m_equiv (gvt_eval_f_grad_f P prov x) (te_f_grad_f P prov x) /\
+  m_equiv (gvt_eval_f_g P prov x) (te_f_g P prov x) /\
+  m_equiv (gvt_eval_grad_f_grad_g_prod P prov x y) (te_grad_f_grad_g_prod P prov x y) /\
+  m_equiv (gvt_eval_grad_L P prov x y) (te_grad_L P prov x y) /\
+  (forall yh_in, (y = [] -> yh_in = []) -> m_equiv (gvt_eval_psi P prov x y Σ yh_in) (te_psi P prov x y Σ)) /\
+  m_equiv (gvt_eval_grad_psi P prov x y Σ) (te_grad_psi P prov x y Σ) /\
+  m_equiv (gvt_eval_psi_grad_psi P prov x y Σ) (te_psi_grad_psi P prov x y Σ).
+Proof.
+  exact (fun P prov x y Σ =>
+    conj (gvt_f_grad_f_equiv P prov x) (conj (gvt_f_g_equiv P prov x) (conj (gvt_grad_f_grad_g_prod_equiv P prov x y)
+    (conj (gvt_grad_L_equiv P prov x y) (conj (gvt_psi_equiv P prov x y Σ) (conj (gvt_grad_psi_equiv P prov x y Σ)
+    (gvt_psi_grad_psi_equiv P prov x y Σ))))))).
+Qed.
+Print Assumptions C04_generated_combined_defaults_are_model.
+
+Theorem C04_generated_hess_psi_prod_is_model : forall (P : problem (T:=R)) prov m x y Σ scale v,
+  gvt_eval_hess_psi_prod P prov m x y Σ scale v = te_hess_psi_prod P prov m x y Σ scale v.
+Proof. exact gvt_hess_psi_prod_equiv. Qed.
+Print Assumptions C04_generated_hess_psi_prod_is_model.
+
+(* the property itself, for the generated terms *)
+Theorem C04_generated_eval_psi_yhat_def : forall P prov, provider_ok P prov ->
+  forall x y Σ yh_in, (y = [] -> yh_in = []) ->
+  fst (gvt_eval_psi P prov x y Σ yh_in) = (psi_def P x y Σ, yhat_def P x y Σ).
+Proof. exact gen_psi_def. Qed.
+Print Assumptions C04_generated_eval_psi_yhat_def.
+
+Theorem C04_generated_eval_grad_psi_def : forall P prov, provider_ok P prov -> grad_g_prod_empty_ok P ->
+  forall x y Σ, fst (gvt_eval_grad_psi P prov x y Σ) = vadd (pgrad_f P x) (pgrad_g_prod P x (yhat_def P x y Σ)).
+Proof. exact gen_grad_psi_def. Qed.
+Print Assumptions C04_generated_eval_grad_psi_def.
+
+Theorem C04_generated_eval_psi_grad_psi_def : forall P prov, provider_ok P prov -> grad_g_prod_empty_ok P ->
+  forall x y Σ, fst (gvt_eval_psi_grad_psi P prov x y Σ)
+                = (psi_def P x y Σ, vadd (pgrad_f P x) (pgrad_g_prod P x (yhat_def P x y Σ))).
+Proof. exact gen_psi_grad_psi_def. Qed.
+Print Assumptions C04_generated_eval_psi_grad_psi_def.
+
+Theorem C04_generated_eval_grad_L_def : forall P prov, provider_ok P prov -> grad_g_prod_empty_ok P ->
+  forall x y, fst (gvt_eval_grad_L P prov x y) = vadd (pgrad_f P x) (pgrad_g_prod P x y).
+Proof. exact gen_grad_L_def. Qed.
+Print Assumptions C04_generated_eval_grad_L_def.
+
+Theorem C04_generated_calls_only_provided_members : forall (P : problem (T:=R)) prov x y Σ,
+  log_ok prov (snd (gvt_eval_psi P prov x y Σ [])) /\ log_ok prov (snd (gvt_eval_grad_psi P prov x y Σ)) /\
+  log_ok prov (snd (gvt_eval_psi_grad_psi P prov x y Σ)) /\ log_ok prov (snd (gvt_eval_grad_L P prov x y)).
+Proof. exact gen_logs_only_provided. Qed.
+Print Assumptions C04_generated_calls_only_provided_members.
+
+(* ---- (9) finite theorems over the generated tables (the bound is the table itself) ---- *)
+Theorem C04_vtable_methods_wellformed : forall m, In m vtable_methods -> chk_method m = true.
+Proof. exact vtable_methods_wellformed. Qed.
+Print Assumptions C04_vtable_methods_wellformed.
+
+Theorem C04_vtable_ctor_complete :
+  list_eqb vtable_ctor_names (map vm_name vtable_methods) = true /\
+  list_eqb vtable_provides_names (map vm_name (filter (fun m => negb (vm_required m)) vtable_methods)) = true.
+Proof. exact vtable_ctor_complete. Qed.
+Print Assumptions C04_vtable_ctor_complete.
+
+Theorem C04_throwing_defaults_throw_under_their_own_name : forall m, In m vtable_methods -> chk_throw_name m = true.
+Proof. exact vtable_throwing_defaults_named. Qed.
+Print Assumptions C04_throwing_defaults_throw_under_their_own_name.
+
+Theorem C04_defaults_call_through_the_vtable : forall s, In s vtable_call_sites -> chk_site vtable_methods s = true.
+Proof. exact vtable_call_sites_ok. Qed.
+Print Assumptions C04_defaults_call_through_the_vtable.
+
+Theorem C04_default_composition_acyclic : forall m, In m vtable_methods -> chk_acyclic vtable_methods m = true.
+Proof. exact vtable_composition_acyclic. Qed.
+Print Assumptions C04_default_composition_acyclic.
+
+Theorem C04_supports_matches_conditional_default : forall s, In s vtable_supports -> chk_supports vtable_methods s = true.
+Proof. exact vtable_supports_ok. Qed.
+Print Assumptions C04_supports_matches_conditional_default.
+
+Theorem C04_forwarders_pass_parameters_in_order : forall f, In f vtable_forwarders -> chk_forwarder f = true.
+Proof. exact vtable_forwarders_ok. Qed.
+Print Assumptions C04_forwarders_pass_parameters_in_order.
+
+Theorem C04_casadi_call_args_ok : forall c, In c casadi_calls -> chk_casadi c = true.
+Proof. exact casadi_call_args_ok. Qed.
+Print Assumptions C04_casadi_call_args_ok.
+
 (* ---- non-vacuity: a concrete problem (n = m = 1, f = x², g = x, D = [0,1]) satisfies the hypotheses, and the
    default composition (nothing supplied) and the all-supplied mask both give ψ = 9 + ½·2·(3.5 − 1)² = 15.25, ŷ = 5 ---- *)
 Definition ex_base : problem (T:=R) :=
@@ -214,3 +308,9 @@ Proof.
     replace (3 + 1 / 2 * 1) with (3 + 1 / 2) by lra. rewrite Hpd. repeat f_equal; lra. }
   unfold row_ok; cbn. split; [lra|]. split; [lra|]. apply derivable_pt_lim_id.
 Qed.
+
+Import String.
+Example C04_tables_nonvacuous :
+  (28 <= List.length vtable_methods)%nat /\ (20 <= List.length vtable_call_sites)%nat /\ (10 <= List.length casadi_calls)%nat /\
+  In ("default_eval_ψ"%string, calc_name, true, ["self"; "ŷ"; "y"; "Σ"; "vtable"]%string) vtable_call_sites.
+Proof. vm_compute. repeat split; try lia. tauto. Qed.
